@@ -221,6 +221,10 @@ def _untyped_guard_helper(fi: FuncInfo) -> Optional[Obligation]:
     return ob
 
 
+def via_ok(_atom: ast.AST) -> bool:
+    return True
+
+
 class _Analysis:
     """Per-function flow analysis producing the set of exits that lack a guard."""
 
@@ -291,8 +295,42 @@ class _Analysis:
         return None
 
     # -- hooks -------------------------------------------------------------------------------
+    def _whole_stream_test(self, atom: ast.AST, p: bool) -> bool:
+        """Guard idioms that look at every element in one expression; true when `atom` having truth value `p` means that
+        all compared CRSs are equal:
+          any(a.crs != x.crs for x in S) is False        all(a.crs == x.crs for x in S) is True
+          m is None / m is not None is False, with  m = next((.. for x in S if a.crs != x.crs), None)"""
+        def gen_says_all_equal(g: ast.AST, want_eq: bool, in_ifs: bool) -> bool:
+            if not isinstance(g, (ast.GeneratorExp, ast.ListComp)) or len(g.generators) != 1:
+                return False
+            tests = g.generators[0].ifs if in_ifs else [g.elt]
+            for t in tests:
+                cc = self.crs_compare(t)
+                if cc is not None and cc[0] == want_eq and self.covers(cc[1], elementwise=False) is not None:
+                    return True
+            return False
+
+        if isinstance(atom, ast.Call) and call_name(atom) in ("any", "all") and len(atom.args) == 1 and via_ok(atom):
+            if call_name(atom) == "any" and not p:
+                return gen_says_all_equal(atom.args[0], False, False)
+            if call_name(atom) == "all" and p:
+                return gen_says_all_equal(atom.args[0], True, False)
+        if isinstance(atom, ast.Compare) and len(atom.ops) == 1 and isinstance(atom.left, ast.Name) and isinstance(atom.comparators[0], ast.Constant) and atom.comparators[0].value is None:
+            none_here = (isinstance(atom.ops[0], ast.Is) and p) or (isinstance(atom.ops[0], ast.IsNot) and not p)
+            if none_here:
+                for kind, v in self.org.defs.get(atom.left.id, []):
+                    if isinstance(v, ast.Call) and call_name(v) == "next" and len(v.args) == 2 and isinstance(v.args[1], ast.Constant) and v.args[1].value is None:
+                        if gen_says_all_equal(v.args[0], False, True):
+                            return True
+        return False
+
     def branch(self, test, pol, facts, via):
         for atom, p in self._atoms(test, pol):
+            if via == "if" and self._whole_stream_test(atom, p):
+                self.kinds.add("G")
+                self.guard_nodes.append(test)
+                facts = facts | {"GUARDED"}
+                continue
             if p and via == "if" and self._single_object_test(atom):
                 # `isinstance(stream, Geometry)`: on this side the "stream" is one object, nothing is combined
                 facts = facts | {"GUARDED"}
@@ -374,6 +412,25 @@ class _Analysis:
             tg = prog.resolve_callee_expr(c.args[0], fi)
             if tg and all(t.qual in self.guarding for t in tg):
                 return frozenset(self.org.roots(c.args[1])) | {"*stream*"}
+            return None
+        # map(F, stream) / map(partial(F, reference=r), stream): F runs for every element of the stream
+        if nm == "map" and len(c.args) >= 2:
+            f0: ast.AST = c.args[0]
+            extra: Set[str] = set()
+            if isinstance(f0, ast.Name):
+                for _k, v in self.org.defs.get(f0.id, []):
+                    if isinstance(v, ast.Call) and call_name(v) == "partial":
+                        f0 = v
+            if isinstance(f0, ast.Call) and call_name(f0) == "partial" and f0.args:
+                for a in list(f0.args[1:]) + [k.value for k in f0.keywords]:
+                    extra |= self.org.roots(a)
+                f0 = f0.args[0]
+            tg = prog.resolve_callee_expr(f0, fi)
+            if tg and all(t.qual in self.guarding for t in tg):
+                roots_m: Set[str] = set(extra)
+                for a in c.args[1:]:
+                    roots_m |= self.org.roots(a)
+                return frozenset(roots_m) | {"*stream*"}
             return None
         callees = prog.resolve_call(c, fi)
         if not callees and isinstance(c.func, ast.Attribute):
